@@ -245,6 +245,9 @@ var $internalize = (v, t, recv, seen, makeWrapper) => {
             }
             return $mapArray(v, e => { return $internalize(e, t.elem, makeWrapper); });
         case $kindFunc:
+            if (v === null) {
+                return $throwNilPointerError; /* the nil func: null <-> nil, as for slices */
+            }
             return function () {
                 var args = [];
                 for (var i = 0; i < t.params.length; i++) {
@@ -322,6 +325,9 @@ var $internalize = (v, t, recv, seen, makeWrapper) => {
                     return new mapType($internalize(v, mapType, recv, seen, makeWrapper));
             }
         case $kindMap:
+            if (v === null) {
+                return false; /* the nil map */
+            }
             var m = new Map();
             seen.get(t).set(v, m);
             var keys = $keys(v);
@@ -332,6 +338,9 @@ var $internalize = (v, t, recv, seen, makeWrapper) => {
             return m;
         case $kindPtr:
             if (t.elem.kind === $kindStruct) {
+                if (v === null && !$wrapsJsObject(t.elem)) {
+                    return t.nil;
+                }
                 return $internalize(v, t.elem, makeWrapper);
             }
         case $kindSlice:
@@ -403,6 +412,16 @@ var $internalize = (v, t, recv, seen, makeWrapper) => {
             return n;
     }
     $throwRuntimeError("cannot internalize " + t.string);
+};
+
+/* $wrapsJsObject reports whether a struct type is a wrapper of a *js.Object (first field, transitively). */
+var $wrapsJsObject = t => {
+    while (true) {
+        if (t === $jsObjectPtr) { return true; }
+        if (t.kind === $kindPtr) { t = t.elem; continue; }
+        if (t.kind === $kindStruct && t.fields.length !== 0) { t = t.fields[0].typ; continue; }
+        return false;
+    }
 };
 
 var $copyIfRequired = (v, typ) => {
